@@ -1,5 +1,8 @@
 --------------------------- MODULE IndexMutex ---------------------------
-(* C31 state machine.                                                                     *)
+(* C31 state machine.  The variable mode is chosen in Init from the constant Modes:        *)
+(*    "gen"   : Macro = FALSE, general rw-lock semantics                                  *)
+(*    "go"    : Macro = FALSE, sync.RWMutex semantics                                     *)
+(*    "macro" : Macro = TRUE,  sync.RWMutex semantics (schedule generation)               *)
 (*  Macro = FALSE : every interleaving of the code's steps (IndexMutexOps!StepP) with      *)
 (*                  the environment's commands (a goroutine calls With(n,f) / Global(f);  *)
 (*                  a running f returns) -- the model that is checked exhaustively.       *)
@@ -12,23 +15,28 @@ EXTENDS IndexMutexOps, Json
 
 CONSTANTS N,         \* goroutines
           Names,     \* repository names, e.g. {"a","b"}
-          MaxDepth,  \* bound on the number of commands
-          Go,        \* lock semantics, see IndexMutexOps
-          Macro, Emit
+          MaxDepth,  \* bound on the number of commands in the modes "gen" and "go"
+          MacroDepth,\* ... in mode "macro"
+          Modes,     \* subset of {"gen", "go", "macro"}
+          Emit,      \* TRUE: print schedules (mode "macro")
+          ViewRet    \* TRUE: the last return values are part of the explored state (more histories)
 
-VARIABLES st, hist
-vars == <<st, hist>>
+VARIABLES st, hist, mode
+vars == <<st, hist, mode>>
+
+Go == mode # "gen"          \* lock semantics, see IndexMutexOps
+Macro == mode = "macro"
 
 P == 1..N
 OpsSet == [k : {"with"}, n : Names] \cup {[k |-> "global", n |-> ""]}
 
-Init == st = InitSt(N) /\ hist = <<>>
+Init == st = InitSt(N) /\ hist = <<>> /\ mode \in Modes
 
 Entry(c, p, o, s) == [c |-> c, p |-> p, k |-> o.k, n |-> o.n, exp |-> Proj(s)]
 
 Internal == /\ ~Macro
             /\ \E p \in P : \E t \in StepP(st, p, Go) : st' = t
-            /\ UNCHANGED hist
+            /\ UNCHANGED <<hist, mode>>
 
 CmdStart(p, o) ==
   /\ CanStart(st, p)
@@ -40,16 +48,18 @@ CmdExit(p) ==
   /\ IF Macro THEN st' \in Settle(Exit(st, p), Go) ELSE st' = Exit(st, p)
   /\ hist' = Append(hist, Entry("exit", p, st.op[p], st'))
 
-Cmd == /\ Len(hist) < MaxDepth
+Cmd == /\ Len(hist) < (IF Macro THEN MacroDepth ELSE MaxDepth)
        /\ \E p \in P : CmdExit(p) \/ \E o \in OpsSet : CmdStart(p, o)
-       /\ (Emit => PrintT(<<"SCRIPT", ToJson([procs |-> N, steps |-> hist'])>>))
+       /\ UNCHANGED mode
+       /\ ((Emit /\ Macro) => PrintT(<<"SCRIPT", ToJson([procs |-> N, steps |-> hist'])>>))
 
 Next == Internal \/ Cmd
 Spec == Init /\ [][Next]_vars
 
 \* op of an idle goroutine, its last return value and ran are history
-view == [pc |-> st.pc, op |-> [p \in P |-> IF st.pc[p] = "idle" THEN NoOp ELSE st.op[p]],
-         running |-> st.running, wown |-> st.wown]
+view == [mode |-> mode, pc |-> st.pc, op |-> [p \in P |-> IF st.pc[p] = "idle" THEN NoOp ELSE st.op[p]],
+         running |-> st.running, wown |-> st.wown,
+         ret |-> IF ViewRet THEN [p \in P |-> IF st.pc[p] = "idle" THEN st.ret[p] ELSE "none"] ELSE <<>>]
 
 -----------------------------------------------------------------------------
 TypeOK == /\ st.running \subseteq Names
